@@ -2,18 +2,20 @@
 """C10 — arithmetic yields the exact IEEE-754 double or an error, never a wrong number.
 
 Necessary structural conditions (the digit-level exactness of the string scanners is not decided):
-  K1  result conversion (the one f64 → JSON-number function): the integer spelling
-      `number as i64` (a saturating cast) is edge-dominated by the exact
-      integrality test fract(number) == 0.0 and by the range guards
-      number >= -2^63 and number < 2^63 (constants read); otherwise
-      Number::from_f64(number) whose None (non-finite) becomes Err; the argument
-      reaches both exits unrounded (no round/trunc/floor/ceil/abs);
+  K1  result conversion (the one f64 → JSON-number function), read as a decision table through the private
+      helpers it calls (rules/x_ipath.py — whichever function holds the guards, however the branches are spelled):
+      the integer spelling Number::from(x as i64) (a saturating cast, of the result itself) is returned only in
+      cases whose tests include the exact integrality test fract(x) == 0.0 and the range guards x >= -2^63 and
+      x < 2^63 (constants read); the float spelling is the payload of Number::from_f64(x) and is returned only where
+      x is not (integral and in range); every case where from_f64(x) is None (non-finite) is Err, and Err is returned
+      only there; no value passes through round/trunc/floor/ceil/abs on its way out;
   K2  every arithmetic table entry (+ - * / % min max) returns only through that
       conversion, and nothing else in their reach builds a JSON number;
   K3  operations: folds run left to right over all operands (no reversing /
       skipping adaptor); + folds float Add from 0.0, * folds float Mul from 1.0,
-      - / % apply float Sub/Div/Rem to (operand 0, operand 1) in that order
-      (one-operand - multiplies by -1 or negates), min/max fold from +inf/-inf
+      - / % apply float Sub/Div/Rem to (conversion of operand 0, conversion of operand 1) in that order — read on
+      the decision cases of the table function through its helpers, operands named by operand descriptors —
+      (one-operand - multiplies the conversion of operand 0 by -1 or negates it), min/max fold from +inf/-inf
       with a strict float comparison; only double arithmetic — no integer
       accessor or integer operation anywhere in the arithmetic reach;
   K4  conversion routing: + and * use the parseFloat-style conversion only,
@@ -60,6 +62,11 @@ def run(ctx):
                 ctx.fail("K1.non-finite-is-error", "%s|infallible" % b.key.split("::", 1)[1], "the conversion of an arithmetic result into a JSON number (%s) cannot fail: a result that is not finite is turned into some value (serde_json maps it to null) instead of an error" % b.key.split("::", 1)[1], where=b.where(), fn=b.key)
             if inf:
                 continue
+        if len(conv) > 1:
+            # the conversion split into an entry and private helpers of the same signature: the entry is the one no
+            # other candidate is reached from
+            outer = [b for b in conv if not any(b.key in facts.reach([o.key]) for o in conv if o.key != b.key)]
+            conv = outer if len(outer) == 1 else conv
         ctx.need(len(conv) == 1, "result conversion f64 → Result<Value> not identified (%d)" % len(conv))
         tnv = conv[0]
         k1(ctx, facts, tnv, cfg)
@@ -100,6 +107,8 @@ def run(ctx):
                 if xb.key.startswith(pf.key) or "String" in str(facts.items.get(xb.key, {}).get("inputs")):
                     ctx.check(trimmed, "K4.parsefloat-skips-leading-space", "the parseFloat-style prefix scan runs over the trimmed text (%s)" % cfg,
                               "the parseFloat-style conversion scans the untrimmed string: \" 12\" would not be 12", where=xb.where(bi), fn=xb.key, nontrivial=True)
+        ckeys_all = {pf.key} | {x.key for x in number_style}
+        stop_keys = {tnv.key, s2n.key} | ckeys_all
         for op in OPS:
             b, e = roles.fn_of(op)
             u = Unit(roles, b.key, extended=True, stop=[tnv.key, s2n.key, pf.key] + [x.key for x in number_style])
@@ -145,15 +154,7 @@ def run(ctx):
                       sample={"operator": op, "float_ops": sorted(got)})
             # operand order for binary ops
             if op in ("-", "/", "%"):
-                name = {"-": "Sub", "/": "Div", "%": "Rem"}[op]
-                for (bb, bi, si, rv) in fops:
-                    if rv["op"] == name:
-                        a_, b_ = bb.trace(rv["a"]), bb.trace(rv["b"])
-                        ia, ib = param_of(bb, a_), param_of(bb, b_)
-                        ctx.check((ia, ib) == (1, 2), "K3.operand-order", "%s computes first %s second (%s)" % (op, name, cfg), "%s computes param%s %s param%s" % (op, ia, name, ib), where=bb.where(bi, si), fn=bb.key, nontrivial=True)
-                        # and the table closure / function passes operand 0, operand 1 in order
-                idx = binding_indices(b, bb if False else None, u)
-                ctx.check(idx in ([0, 1], None) or idx == [0, 1], "K3.binding-order", "%s passes (operand 0, operand 1) (%s)" % (op, cfg), "%s passes operands %s" % (op, idx), where=b.where(), fn=b.key)
+                operand_order(ctx, facts, roles, u, b, op, cfg, ckeys_all, stop_keys)
             # fold identities
             if op in ("+", "*", "min", "max"):
                 from . import accum
@@ -197,32 +198,90 @@ def run(ctx):
                     ctx.fail("K5.defaulted", "%s|%s" % (op, callee_path(s.term).rsplit("::", 1)[1]), "%s consumes a conversion result with %s: a non-numeric operand is replaced by a number or skipped" % (op, callee_path(s.term)), where=s.where(), fn=s.body.key)
 
 
-def param_of(b, e):
-    """Which parameter's conversion an f64 expression derives from (1/2) or None."""
-    hits = set()
+def _conversions_in(e, ckeys):
+    """The calls of a conversion function an f64 expression is computed from (distinct by operand)."""
+    from . import pathsum
+    out = {}
+    found = []
+    _subterms(e, lambda y: y[0] == "call" and bool(y[1]) and y[1].get("key") in ckeys and len(y[2]) >= 1, found)
+    for y in found:
+        out.setdefault(pathsum.canon(strip_refs(y[2][0])), y)
+    return list(out.values())
 
-    def p(x):
-        if x[0] == "arg":
-            hits.add(x[1])
-        return False
-    expr_mentions(e, p)
-    return hits.pop() if len(hits) == 1 else None
 
+def operand_order(ctx, facts, roles, u, b, op, cfg, ckeys, stop_keys):
+    """`-`, `/`, `%` compute (conversion of operand 0) OP (conversion of operand 1), in that order.
 
-def binding_indices(b, _unused, u):
-    """Operand indices the bound function hands to a two-argument helper, in order."""
-    for bi, t in b.calls():
-        c = callee_of(t)
-        if c and c["local"] and len(t["args"]) == 2:
-            idx = []
-            for a in t["args"]:
-                a = strip_refs(b.trace(a))
-                if a[0] == "call" and a[1] and a[1]["path"].endswith("Index<I>>::index"):
-                    i = strip_refs(a[2][1])
-                    idx.append(const_value(i[1]) if i[0] == "const" else None)
-            if len(idx) == 2:
-                return idx
-    return None
+    Read on the decision cases of the table function *through* the helper functions of its unit (rules/x_ipath.py):
+    in every case whose value contains the float operation, the left operand must derive from exactly one conversion
+    call and that call's argument must denote operand 0 of the operand list (operand descriptors, rules/operands.py);
+    the right operand likewise operand 1.  Which function holds the operation, whether the two conversions are made
+    by a shared helper returning a pair, and how the results are unwrapped does not matter."""
+    from . import x_ipath, operands as OD
+    name = {"-": "Sub", "/": "Div", "%": "Rem"}[op]
+    args_param = None
+    for l in range(1, b.arg_count + 1):
+        if "std::vec::Vec<&" in b.local_ty(l):
+            args_param = l
+    inst = "%s (%s)" % (op, cfg)
+    if args_param is None:
+        ctx.unread("K3.operand-order", inst, "%s: the operand-list parameter of the table function was not identified" % op, where=b.where(), fn=b.key)
+        return
+    cases = x_ipath.decision_cases(facts, b, lambda c: c.get("key") in u.keys and c.get("key") not in stop_keys)
+    if cases is None:
+        ctx.unread("K3.operand-order", inst, "%s: the operator's code has loops or too many paths; its decision cases were not read" % op, where=b.where(), fn=b.key)
+        return
+
+    def index_of(e):
+        cs = _conversions_in(e, ckeys)
+        if len(cs) != 1:
+            return None, "%d conversion calls in %s" % (len(cs), show_expr(strip_refs(e))[:60])
+        d = OD.describe(b, cs[0][2][0], args_param)
+        i = OD.absolute_index(d)
+        return i, repr(d)
+    at, at_fn = b.where(), b.key        # where the operation is written (for the report)
+    for bb in u.bodies:
+        for bi, si, st in bb.stmts():
+            if st["k"] == "Assign" and st["rv"]["k"] == "BinaryOp" and st["rv"]["op"] == name and st["rv"].get("opty") == "f64" and at_fn == b.key:
+                at, at_fn = bb.where(bi, si), bb.key
+    seen, bad, dark = 0, [], []
+    for conds, v, p in cases:
+        ops_ = []
+        _subterms(v, lambda y: y[0] == "binop" and y[1] == name and y[4] == "f64", ops_)
+        for y in ops_:
+            (ia, ta), (ib, tb) = index_of(y[2]), index_of(y[3])
+            if ia is None or ib is None:
+                dark.append("%s %s %s" % (ta, name, tb))
+            elif (ia, ib) == (0, 1):
+                seen += 1
+            else:
+                bad.append((ia, ib))
+        if op == "-":
+            negs = []
+            _subterms(v, lambda y: (y[0] == "binop" and y[1] == "Mul" and y[4] == "f64") or (y[0] == "unop" and y[1] == "Neg"), negs)
+            for y in negs:
+                if y[0] == "unop":
+                    i0, t0 = index_of(y[2])
+                    kst = -1.0
+                else:
+                    side = [z for z in (y[2], y[3]) if _cval(z) is None]
+                    ks = [_cval(z) for z in (y[2], y[3]) if _cval(z) is not None]
+                    if len(side) != 1 or len(ks) != 1:
+                        continue
+                    i0, t0 = index_of(side[0])
+                    kst = ks[0]
+                if i0 is None:
+                    ctx.unread("K3.negation", inst, "one-operand -: the operand negated (%s) was not read as the conversion of an operand" % t0, where=b.where(), fn=b.key)
+                else:
+                    ctx.check(i0 == 0 and kst == -1.0, "K3.negation", "one-operand - is (conversion of operand 0) × -1 (%s)" % cfg, "one-operand - computes (conversion of operand %s) × %s" % (i0, kst), where=b.where(), fn=b.key, nontrivial=True)
+    for (ia, ib) in sorted(set(bad)):
+        ctx.fail("K3.operand-order", "%s|operand %s %s operand %s" % (op, ia, name, ib), "%s computes (conversion of operand %s) %s (conversion of operand %s); expected operand 0 %s operand 1" % (op, ia, name, ib, name), where=at, fn=at_fn)
+    if dark and not bad:
+        ctx.unread("K3.operand-order", inst, "%s: the operands of the float %s were not read as conversions of operands of the operand list (%s)" % (op, name, dark[0]), where=b.where(), fn=b.key)
+    elif not bad and not seen:
+        ctx.unread("K3.operand-order", inst, "%s: no case of the operator's code (read through %s) shows the float %s" % (op, sorted(cases.walker.expanded) or "no helper", name), where=b.where(), fn=b.key)
+    elif not bad:
+        ctx.ok("K3.operand-order", "%s computes (conversion of operand 0) %s (conversion of operand 1) (%s)" % (op, name, cfg), nontrivial=True, sample={"operator": op, "cases": seen, "helpers_read_through": sorted(cases.walker.expanded)})
 
 
 def error_on_none(s):
@@ -258,55 +317,313 @@ def error_on_none(s):
     return False
 
 
+X = ("arg", 1)
+TWO63 = 9223372036854775808.0
+BELOW_TWO63 = 9223372036854774784.0       # the largest double below 2^63
+
+
+def _cval(z):
+    z = strip_refs(z)
+    if z[0] == "const":
+        v = const_value(z[1])
+        return float(v) if isinstance(v, (int, float)) and not isinstance(v, bool) else None
+    if z[0] == "cast" and z[1] == "IntToFloat" and strip_refs(z[2])[0] == "const":
+        v = const_value(strip_refs(z[2])[1])
+        return float(v) if isinstance(v, int) and not isinstance(v, bool) else None
+    if z[0] == "unop" and z[1] == "Neg" and _cval(z[2]) is not None:
+        return -_cval(z[2])
+    return None
+
+
+def _is_x(e):
+    return strip_refs(e) == X
+
+
+def _f64m(e, names):
+    return e[0] == "call" and bool(e[1]) and re.search(r"f64>::(%s)$" % names, e[1].get("path") or "") is not None and len(e[2]) >= 1
+
+
+def _arith(e, depth=0):
+    """Built from the result and constants by float arithmetic only (a test on such a term has been *read*)."""
+    e = strip_refs(e)
+    if depth > 12:
+        return False
+    if e == X or e[0] == "const":
+        return True
+    if e[0] == "binop":
+        return _arith(e[2], depth + 1) and _arith(e[3], depth + 1)
+    if e[0] in ("unop", "cast"):
+        return _arith(e[2], depth + 1)
+    if e[0] == "call" and e[1] and re.search(r"f64>::\w+$", e[1].get("path") or ""):
+        return all(_arith(a, depth + 1) for a in e[2])
+    return False
+
+
+def _whole_term(e):
+    e = strip_refs(e)
+    return _f64m(e, "trunc|floor|ceil|round|round_ties_even") and _is_x(e[2][0])
+
+
+def _frac_term(e):
+    """A term that is 0 exactly when the result is integral."""
+    e = strip_refs(e)
+    if _f64m(e, "fract") and _is_x(e[2][0]):
+        return True
+    if _f64m(e, "abs"):
+        return _frac_term(e[2][0])
+    if e[0] == "binop" and e[1] == "Rem" and _is_x(e[2]) and _cval(e[3]) == 1.0:
+        return True
+    if e[0] == "binop" and e[1] == "Sub" and _is_x(e[2]) and _whole_term(e[3]):
+        return True
+    return False
+
+
+def _is_from_f64(e):
+    e = strip_refs(e)
+    return e[0] == "call" and bool(e[1]) and e[1].get("path") == "serde_json::Number::from_f64" and len(e[2]) == 1 and _is_x(e[2][0])
+
+
+class _Conds:
+    """What the branch conditions of one case say about the result x: exact integrality, bounds against constants,
+    finiteness (from_f64 → Some/None); `opaque` = conditions that are not tests on x (not read), `loose` = tests on x
+    that are neither the integrality test nor a bound against a constant (read, but something else)."""
+
+    def __init__(self, conds, exprs):
+        self.integral, self.finite = None, None
+        self.lo, self.hi = [], []         # (constant, strict)
+        self.tests, self.opaque, self.loose, self.other_eq = [], [], [], []
+        for key, val in conds.items():
+            if key[0] == "cmp":
+                m = exprs.get(key)
+                if not isinstance(m, dict) or key[2] not in m or key[3] not in m:
+                    self.opaque.append(str(key[1:]))
+                    continue
+                L, R = m[key[2]], m[key[3]]
+                txt = "%s %s %s is %s" % (show_expr(L)[:50], {"Eq": "==", "Lt": "<"}.get(key[1], key[1]), show_expr(R)[:50], val)
+                if not (_arith(L) and _arith(R)):
+                    self.opaque.append(txt)
+                    continue
+                self.tests.append(txt)
+                if key[1] == "Eq":
+                    if (_frac_term(L) and _cval(R) == 0.0) or (_frac_term(R) and _cval(L) == 0.0) or (_whole_term(L) and _is_x(R)) or (_whole_term(R) and _is_x(L)):
+                        self.integral = bool(val)
+                    else:
+                        self.other_eq.append(txt)
+                elif key[1] == "Lt" and _is_x(L) and _cval(R) is not None:
+                    (self.hi if val else self.lo).append((_cval(R), bool(val)))          # x < c   |  x >= c
+                elif key[1] == "Lt" and _is_x(R) and _cval(L) is not None:
+                    (self.lo if val else self.hi).append((_cval(L), bool(val)))          # c < x   |  x <= c
+                else:
+                    self.loose.append(txt)
+            elif key[0] == "variant":
+                src = exprs.get(key)
+                if src is not None and _is_from_f64(src) and val in ("Some", "None"):
+                    self.finite = (val == "Some")
+                else:
+                    self.opaque.append("%s is %s" % (key[1][:60], val))
+            elif key[0] == "pure" and re.search(r"::is_(finite|nan|infinite)\(\(arg 1\)\)$", key[1]) and isinstance(val, bool):
+                which = re.search(r"::is_(finite|nan|infinite)\(", key[1]).group(1)
+                if which == "finite":
+                    self.finite = val
+                elif val:
+                    self.finite = False
+            else:
+                self.opaque.append("%s is %s" % (str(key[1])[:60], val))
+
+    def in_i64(self):
+        lo_ok = any(c == -TWO63 and not strict for c, strict in self.lo)
+        hi_ok = any((c == TWO63 and strict) or (c == BELOW_TWO63 and not strict) for c, strict in self.hi)
+        return lo_ok, hi_ok
+
+    def outside_i64(self):
+        return any((c <= -TWO63 and strict) or (c < -TWO63) for c, strict in self.hi) or any(c >= TWO63 for c, strict in self.lo)
+
+    def bounds(self):
+        return ["x %s %r" % (">" if s else ">=", c) for c, s in self.lo] + ["x %s %r" % ("<" if s else "<=", c) for c, s in self.hi]
+
+
+def _subterms(e, pred, out, depth=0):
+    if not isinstance(e, tuple) or depth > 40:
+        return
+    if pred(e):
+        out.append(e)
+    for x in e:
+        if isinstance(x, tuple):
+            _subterms(x, pred, out, depth + 1)
+        elif isinstance(x, list):
+            for y in x:
+                _subterms(y, pred, out, depth + 1)
+
+
+def _read_result(v):
+    """('err',) | ('panic',) | ('int', cast expr) | ('float',) | ('other', expr) for the value of one case."""
+    v = strip_refs(v)
+    if v == ("panic",):
+        return ("panic",)
+    if v[0] == "call" and v[1] and "from_residual" in (v[1].get("path") or ""):
+        return ("err",)
+    if v[0] == "agg" and v[1].get("variant") == "Err":
+        return ("err",)
+    if v[0] == "agg" and v[1].get("variant") == "Ok" and v[2]:
+        p = strip_refs(v[2][0])
+        n = None
+        if p[0] == "agg" and p[1].get("variant") == "Number" and p[2]:
+            n = strip_refs(p[2][0])
+        elif p[0] == "call" and p[1] and re.search(r"Value::Number", (p[1].get("path") or "") + " " + (p[1].get("key") or "")) and p[2]:
+            n = strip_refs(p[2][0])
+        if n is None:
+            return ("other", p)
+        if n[0] == "call" and n[1] and re.search(r"^<serde_json::Number as std::convert::From<i64>>::from$|Into<.*>>::into$", n[1].get("path") or "") and n[2]:
+            c = strip_refs(n[2][0])
+            if c[0] == "cast" and c[1] == "FloatToInt":
+                return ("int", c)
+        if n[0] == "payload" and _is_from_f64(n[2]):
+            return ("float",)
+        if n[0] == "call" and n[1] and re.search(r"Option::<T>::(unwrap|expect)$", n[1].get("path") or "") and n[2] and _is_from_f64(n[2][0]):
+            return ("float",)
+        return ("other", n)
+    return ("other", v)
+
+
 def k1(ctx, facts, f, cfg):
-    casts = [(bi, si, st) for bi, si, st in f.stmts() if st["k"] == "Assign" and st["rv"]["k"] == "Cast" and st["rv"]["cast"] == "FloatToInt"]
-    ctx.check(len(casts) <= 1, "K1.one-cast", "at most one float→int cast in the conversion (%s)" % cfg, "%d casts" % len(casts), where=f.where(), fn=f.key)
-    for s in [x for x in [(bi, callee_path(t)) for bi, t in f.calls()] if ROUNDERS.search(x[1] or "")]:
-        ctx.fail("K1.rounded", "conversion|%s" % s[1].rsplit("::", 1)[1], "the result is passed through %s before being returned: it would be rounded further" % s[1], where=f.where(s[0]), fn=f.key)
-    for bi, si, st in casts:
-        src = strip_refs(f.trace(st["rv"]["op"]))
-        ctx.check(src == ("arg", 1), "K1.cast-of-result", "the integer spelling casts the result itself (%s)" % cfg, "the cast is applied to %s" % show_expr(src), where=f.where(bi, si), fn=f.key)
-        guards = {"integral": False, "lower": False, "upper": False}
-        detail = {}
+    """The result conversion read as a decision table (rules/x_ipath.py: path summaries through the private helpers
+    it calls, Option/Result plumbing in case normal form).  Every case is a set of tests on the result x and what is
+    returned under them:
+        Ok(Number(from(x as i64)))      only under  fract(x) == 0.0  (exactly),  x >= -2^63,  x < 2^63
+        Ok(Number(p)), p = payload of from_f64(x)   only where x is not (integral and in the i64 range)
+        Err(..)                          only where from_f64(x) is None; and every such case is Err
+    whatever helper holds the guards and however the branches are spelled."""
+    from . import x_ipath
+    name = f.key.split("::", 1)[1]
+    cases = x_ipath.decision_cases(facts, f, lambda c: True)
+    if cases is None:
+        ctx.unread("K1.table", "%s (%s)" % (name, cfg), "the result conversion %s has loops or too many paths: its decision table was not read" % name, where=f.where(), fn=f.key)
+        return
+    # where the cast is written (for the report)
+    cast_at = None
+    for k_ in [f.key] + sorted(cases.walker.expanded):
+        hb = facts.body(k_)
+        for bi, si, st in (hb.stmts() if hb is not None else []):
+            if st["k"] == "Assign" and st["rv"]["k"] == "Cast" and st["rv"]["cast"] == "FloatToInt" and cast_at is None:
+                cast_at = (hb, bi, si)
+    at_cast = cast_at[0].where(cast_at[1], cast_at[2]) if cast_at else f.where()
+    fn_cast = cast_at[0].key if cast_at else f.key
+    res = {}          # clause -> {"ok": n, "fail": [detail], "unread": [detail]}
 
-        def cval(z):
-            if z[0] == "const":
-                return const_value(z[1])
-            if z[0] == "cast" and z[1] == "IntToFloat" and strip_refs(z[2])[0] == "const":
-                return float(const_value(strip_refs(z[2])[1]))
-            return None
+    def note(clause, outcome, detail="", tag=None):
+        r = res.setdefault(clause, {"ok": 0, "fail": [], "unread": []})
+        if outcome == "ok":
+            r["ok"] += 1
+        elif outcome == "unread":
+            if detail not in r["unread"]:
+                r["unread"].append(detail)
+        elif not any(t == (tag or "violated") for t, _ in r["fail"]):
+            r["fail"].append((tag or "violated", detail))
 
-        from .core import implied_comparisons
-        for (op, x, y) in implied_comparisons(f, bi):
-            if cval(x) is not None and cval(y) is None:
-                x, y = y, x
-                op = {"Lt": "Gt", "Le": "Ge", "Gt": "Lt", "Ge": "Le", "Eq": "Eq", "Ne": "Ne"}[op]
-            c = cval(y)
-            if c is None:
-                continue
-            if x[0] == "call" and x[1] and x[1]["path"].endswith("f64>::fract") and strip_refs(x[2][0]) == ("arg", 1) and op == "Eq" and c == 0.0:
-                guards["integral"] = True
-            if x == ("arg", 1) and op == "Ge" and c == -9223372036854775808.0:
-                guards["lower"] = True
-            if x == ("arg", 1) and op == "Lt" and c == 9223372036854775808.0:
-                guards["upper"] = True
-            if x == ("arg", 1) and op in ("Le", "Lt", "Ge", "Gt"):
-                detail["%s %s" % (op, c)] = True
-        ctx.check(guards["integral"], "K1.integrality", "the integer spelling is taken only when fract(result) == 0.0 exactly (%s)" % cfg,
-                  "the float→int cast is not dominated by the exact test fract(x) == 0.0 (a tolerance would round tiny results to 0)", where=f.where(bi, si), fn=f.key, nontrivial=True)
-        ctx.check(guards["lower"] and guards["upper"], "K1.range", "the integer spelling is taken only for -2^63 <= result < 2^63 (%s)" % cfg,
-                  "the saturating float→int cast is not guarded by the exact i64 range (guards seen: %s)" % sorted(detail), where=f.where(bi, si), fn=f.key, nontrivial=True, sample={"guards": guards})
-    # float exit: from_f64 → None → Err
-    ff = [(bi, t) for bi, t in f.calls() if callee_path(t) == "serde_json::Number::from_f64"]
-    ctx.check(len(ff) == 1 and strip_refs(f.trace(ff[0][1]["args"][0])) == ("arg", 1), "K1.from-f64", "otherwise the result itself goes through Number::from_f64 (%s)" % cfg, "%d from_f64 calls" % len(ff), where=f.where(), fn=f.key)
-    errs = [(bi, t) for bi, t in f.calls() if (callee_path(t) or "") in ("std::option::Option::<T>::ok_or_else", "std::option::Option::<T>::ok_or")]
-    ok = any(strip_refs(f.trace(t["args"][0]))[0] == "call" and strip_refs(f.trace(t["args"][0]))[3] == ff[0][0] for bi, t in errs) if ff else False
-    if ff and not ok:
-        # match form: the None edge of from_f64's result returns Err, the Some edge Ok(Number(payload))
-        from .core import option_guards
-        for (sw, t_some, t_none) in option_guards(f, lambda x: x[0] == "call" and x[3] == ff[0][0]):
-            only_none = (f.reachable(t_none) - f.reachable(t_some)) | {t_none}
-            with f.restricted(only_none):
-                rn = strip_refs(f.trace(0))
-            ok = ok or (rn[0] == "agg" and rn[1].get("variant") == "Err")
-    ctx.check(ok, "K1.non-finite-is-error", "a non-finite result (from_f64 → None) becomes Err (%s)" % cfg, "from_f64's None is not converted into an error", where=f.where(), fn=f.key, nontrivial=True)
+    kinds = {"int": 0, "float": 0, "err": 0}
+    nonfinite_cases = 0
+    for conds, v, p in cases:
+        cd = _Conds(conds, cases.exprs)
+        rr = _read_result(v)
+        under = "; ".join(cd.tests + cd.opaque) or "no test"
+        bad = []
+        _subterms(v, lambda y: y[0] == "call" and bool(y[1]) and ROUNDERS.search(y[1].get("path") or "") is not None, bad)
+        for y in bad:
+            note("K1.rounded", "fail", "the result is passed through %s before being returned: it would be rounded further" % y[1]["path"], tag=y[1]["path"].rsplit("::", 1)[1])
+        if cd.finite is False:
+            nonfinite_cases += 1
+            if rr[0] == "err":
+                note("K1.non-finite-is-error", "ok")
+            elif rr[0] == "panic":
+                note("K1.non-finite-is-error", "fail", "from_f64's None (a non-finite result) is unwrapped: the evaluation panics instead of returning an error", tag="unwrap")
+            else:
+                note("K1.non-finite-is-error", "fail", "where from_f64(x) is None (x not finite) the conversion returns %s, not an error" % show_expr(v)[:80], tag="not Err")
+        if rr[0] == "int":
+            kinds["int"] += 1
+            c = rr[1]
+            if _is_x(c[2]) and c[3] == "i64":
+                note("K1.cast-of-result", "ok")
+            elif not _is_x(c[2]):
+                note("K1.cast-of-result", "fail", "the float→int cast is applied to %s, not to the result itself" % show_expr(strip_refs(c[2]))[:80], tag="cast of another value")
+            else:
+                note("K1.range", "fail", "the result is cast to %s (saturating); the integer spelling must cover the i64 range" % c[3], tag="cast to %s" % c[3])
+            if cd.integral is True:
+                note("K1.integrality", "ok")
+            elif cd.opaque or cd.other_eq:
+                note("K1.integrality", "unread", "the integer spelling is reached under tests that were not read as the exact integrality test (%s)" % under)
+            else:
+                note("K1.integrality", "fail", "the float→int cast is reached without the exact test fract(x) == 0.0 (tests on this path: %s) — a tolerance would round tiny results to 0" % under, tag="no exact test")
+            lo_ok, hi_ok = cd.in_i64()
+            if lo_ok and hi_ok:
+                note("K1.range", "ok")
+            elif cd.opaque and not (cd.lo or cd.hi):
+                note("K1.range", "unread", "the integer spelling is reached under tests that were not read as the i64 range guards (%s)" % under)
+            else:
+                note("K1.range", "fail", "the saturating float→int cast is not guarded by the exact i64 range -2^63 <= x < 2^63 (bounds read on this path: %s)" % (cd.bounds() or "none"), tag="bounds " + ",".join(cd.bounds() or ["none"]))
+        elif rr[0] == "float":
+            kinds["float"] += 1
+            note("K1.from-f64", "ok")
+            if cd.integral is False or cd.outside_i64():
+                note("K1.integer-spelling", "ok")
+            elif cd.opaque or cd.other_eq or cd.loose:
+                note("K1.integer-spelling", "unread", "the float spelling is reached under tests that were not read as 'not integral or outside the i64 range' (%s)" % under)
+            else:
+                note("K1.integer-spelling", "fail", "a result that is integral and fits an i64 can reach the float spelling (tests on this path: %s)" % under, tag="integral result as float")
+        elif rr[0] == "err":
+            kinds["err"] += 1
+            if cd.finite is False:
+                note("K1.error-iff-non-finite", "ok")
+            elif cd.opaque:
+                note("K1.error-iff-non-finite", "unread", "an error is returned under tests that were not read (%s)" % under)
+            else:
+                note("K1.error-iff-non-finite", "fail", "an error is returned for a finite result (tests on this path: %s)" % under, tag="finite result")
+        elif rr[0] == "panic":
+            if cd.finite is not False:
+                note("K1.non-finite-is-error", "fail", "the conversion can panic (unwrap of None under: %s)" % under, tag="panic")
+        else:
+            o = rr[1]
+            seen_bad = bool(bad)
+            cs_ = []
+            _subterms(o, lambda y: y[0] == "cast" and y[1] == "FloatToInt", cs_)
+            for c in cs_:
+                seen_bad = True
+                if not _is_x(c[2]):
+                    note("K1.cast-of-result", "fail", "the float→int cast is applied to %s, not to the result itself" % show_expr(strip_refs(c[2]))[:80], tag="cast of another value")
+                else:
+                    note("K1.cast-of-result", "fail", "the integer %s goes through %s before it becomes the JSON number" % (show_expr(c)[:40], show_expr(o)[:80]), tag="integer altered")
+            vs_ = []
+            _subterms(o, lambda y: y[0] == "call" and bool(y[1]) and re.search(r"^<serde_json::Value as std::convert::From<f(32|64)>>::from$|^serde_json::Number::from_f64$", y[1].get("path") or "") is not None, vs_)
+            for y in vs_:
+                seen_bad = True
+                if y[1]["path"].endswith("from_f64"):
+                    note("K1.from-f64", "fail", "Number::from_f64 is applied to %s, not to the result itself" % show_expr(strip_refs(y[2][0]))[:80], tag="from_f64 of another value")
+                else:
+                    note("K1.non-finite-is-error", "fail", "the result goes through Value::from(f64), which maps a non-finite number to null instead of an error", tag="Value::from")
+            if not seen_bad:
+                note("K1.table", "unread", "the conversion returns %s under (%s): not one of the spellings of a JSON number the rule reads" % (show_expr(o)[:80], under))
+    if not nonfinite_cases:
+        note("K1.non-finite-is-error", "unread" if res.get("K1.table", {}).get("unread") else "fail", "no case of the conversion asks whether the result is finite (from_f64 → None): a non-finite result has no way to become an error", tag="no finiteness test")
+    if not kinds["int"] and not res.get("K1.table", {}).get("unread"):
+        note("K1.integer-spelling", "fail", "no case of the conversion spells an integral result as a JSON integer", tag="no integer spelling")
+    if not kinds["float"] and not res.get("K1.table", {}).get("unread"):
+        note("K1.from-f64", "fail", "no case of the conversion hands the result itself to Number::from_f64", tag="no from_f64")
+    titles = {"K1.cast-of-result": "the integer spelling casts the result itself",
+              "K1.integrality": "the integer spelling is taken only when fract(result) == 0.0 exactly",
+              "K1.range": "the integer spelling is taken only for -2^63 <= result < 2^63",
+              "K1.from-f64": "otherwise the result itself goes through Number::from_f64",
+              "K1.integer-spelling": "the float spelling is taken only for results that are not integral or do not fit an i64",
+              "K1.non-finite-is-error": "a non-finite result (from_f64 → None) becomes Err",
+              "K1.error-iff-non-finite": "the conversion fails only for a non-finite result",
+              "K1.rounded": "the result reaches both spellings unrounded", "K1.table": "every case of the conversion was read"}
+    res.setdefault("K1.rounded", {"ok": 1, "fail": [], "unread": []})
+    for clause in sorted(res):
+        r = res[clause]
+        where = at_cast if clause in ("K1.cast-of-result", "K1.integrality", "K1.range") else f.where()
+        fn = fn_cast if clause in ("K1.cast-of-result", "K1.integrality", "K1.range") else f.key
+        if r["fail"]:
+            for tag, d in r["fail"][:4]:
+                ctx.fail(clause, "%s|%s" % (name, tag), d, where=where, fn=fn)
+        elif r["unread"]:
+            ctx.unread(clause, "%s (%s)" % (name, cfg), r["unread"][0], where=where, fn=fn)
+        else:
+            ctx.ok(clause, "%s (%s)" % (titles.get(clause, clause), cfg), nontrivial=clause != "K1.table", sample={"cases": len(cases), "kinds": dict(kinds), "helpers_read_through": sorted(cases.walker.expanded)})
